@@ -408,9 +408,9 @@ def h_threads(ctx, menu_idx=None):
 _pf = Part("forbidden-mixes", h_forbidden, split_depth=2)
 _pf.single_bucket_ok = True
 PARTS = [
-    Part("thread-schedules", h_threads, bound={"quick": 1, "thorough": 2}, split_depth=2, budget={"quick": 240, "thorough": 3000}, engine="E3"),
-    Part("single-recipient", h_single, bound={"quick": 1, "thorough": 2}, split_depth=2, budget={"quick": 150, "thorough": 2400}),
-    Part("multi-recipient", h_multi, bound={"quick": 1, "thorough": 2}, split_depth=2, budget={"quick": 120, "thorough": 1800}),
+    Part("thread-schedules", h_threads, bound={"quick": 1, "thorough": 2}, split_depth=2, budget={"quick": 2400, "thorough": 3000}, engine="E3"),
+    Part("single-recipient", h_single, bound={"quick": 1, "thorough": 2}, split_depth=2, budget={"quick": 1500, "thorough": 2400}),
+    Part("multi-recipient", h_multi, bound={"quick": 1, "thorough": 2}, split_depth=2, budget={"quick": 1200, "thorough": 1800}),
     _pf,
     Part("def-up-to-the-limit", h_def_limit, split_depth=3),
     Part("headers-and-objects-used-again", h_again, bound={"quick": 0, "thorough": 1}, split_depth=2),
